@@ -47,6 +47,111 @@ def preempted_parent_scenarios():
     return out
 
 
+# ---- terminate() meets a worker which is ending on its own, with one of the control threads held at each of its lines ---------
+CTRL_ARMS = {
+    'P': [('child-control-thread', {'file': 'process.py', 'func': '_ctrl_fn', 'cls': 'ProcessWorker', 'line_text': 'sig = self._ctrl_comms.child_end.recv()'})],
+    'PP': [('child-control-thread', {'file': 'process.py', 'func': '_ctrl_fn', 'cls': 'PersistentProcessWorker', 'line_text': 'sig = self._ctrl_comms.child_end.recv()'})],
+    'R': [('child-control-thread', {'file': 'remote.py', 'func': '_ctrl_fn_local', 'cls': 'RemoteWorker', 'line_text': 'sig = self._ctrl_comms.child_end.recv()'}),
+          ('server-control-thread', {'file': 'remote.py', 'func': '_ctrl_fn_remote', 'cls': 'RemoteWorker', 'line_text': 'ready = mp.connection.wait([self._ctrl_sock, self._child.sentinel])'})],
+    'PR': [('child-control-thread', {'file': 'remote.py', 'func': '_ctrl_fn_local', 'cls': 'PersistentRemoteWorker', 'line_text': 'sig = self._ctrl_comms.child_end.recv()'}),
+           ('server-control-thread', {'file': 'remote.py', 'func': '_ctrl_fn_remote', 'cls': 'PersistentRemoteWorker', 'line_text': 'ready = mp.connection.wait([self._ctrl_sock, self._child.sentinel])'})],
+}
+
+
+def ctrl_held_script(kind, arm, k, call):
+    pers = len(kind) == 2
+    sc = [{'op': 'land_spec', 'arm': arm, 'events': ([{'k': k, 'action': 'pause', 'cap': 0.6}] if k else [])}]
+    if kind in ('R', 'PR'):
+        sc.append({'op': 'respawn_server'})
+    if pers:
+        sc += [{'op': 'create', 'var': 'w', 'kind': kind, 'target': 'slow_echo', 'kwargs': {'delay': 0.2}},
+               {'op': 'call', 'var': 'w', 'method': 'enqueue', 'args': ['a']},
+               {'op': 'call', 'var': 'w', 'method': 'close'}]
+    else:
+        sc += [{'op': 'create', 'var': 'w', 'kind': kind, 'target': 'ret_after', 'kwargs': {'delay': 0.25}}]
+    if k:
+        sc.append({'op': 'wait_reached', 'timeout': 8, 'tag': 'reached'})
+    else:
+        sc.append({'op': 'sleep', 's': 0.5})
+    if call == 'terminate':
+        sc.append({'op': 'call', 'var': 'w', 'method': 'terminate', 'kwargs': {'timeout': 4, 'force': False}, 'timeout': 30, 'tag': 'call'})
+    elif call == 'wait':
+        sc.append({'op': 'call', 'var': 'w', 'method': 'wait', 'args': [4], 'timeout': 30, 'tag': 'call'})
+    else:
+        sc.append({'op': 'call', 'var': 'w', 'method': 'is_alive', 'timeout': 30, 'tag': 'call'})
+    sc += [{'op': 'poll_dead', 'var': 'w', 'timeout': 10, 'tag': 'dead'},
+           {'op': 'get', 'var': 'w', 'attr': 'has_error', 'tag': 'has_error'},
+           {'op': 'get', 'var': 'w', 'attr': 'result', 'tag': 'result'},
+           {'op': 'get', 'var': 'w', 'attr': 'error', 'tag': 'error'},
+           {'op': 'land_report', 'tag': 'report'}, {'op': 'land_off'}]
+    return sc
+
+
+def judge_ctrl_held(kind, sc, obs, call):
+    if obs.get('driver_hang') or obs.get('driver_error'):
+        return ('harness', obs.get('driver_hang') or obs.get('driver_error'))
+    t = {}
+    for op, st in zip(sc, obs['steps']):
+        if op.get('tag'):
+            t[op['tag']] = st
+        if st.get('harness_error'):
+            return ('harness', st)
+    if 'reached' in t and t['reached'].get('ret') is not True:
+        return ('beyond-end', None)
+    c = t.get('call', {})
+    if c.get('hang'):
+        return ('%s-hangs' % call, None)
+    if 'exc' in c:
+        return ('%s-raises-%s' % (call, c['exc']), c)
+    if call in ('terminate', 'wait') and c.get('ret') is not True:
+        return ('%s-returned-%s' % (call, c.get('ret')), c)
+    if t.get('dead', {}).get('ret') is not True:
+        return ('worker-not-dead', t.get('dead'))
+    out = (t['has_error'].get('ret'), t['result'].get('ret'), t['error'].get('ret'))
+    own = (False, 1, None) if len(kind) == 2 else (False, 5, None)
+    if out == own or (call == 'terminate' and out == (True, None, WTE)):
+        return None
+    return ('third-outcome:' + describe(out), {'outcome': str(out)[:200]})
+
+
+def ctrl_held_part(ctx):
+    jobs, plan = [], []
+    for kind, arms in CTRL_ARMS.items():
+        for name, arm in arms:
+            jobs.append({'script': ctrl_held_script(kind, arm, 0, 'terminate')})
+            plan.append((kind, name, arm))
+    bases = land.run_cases(jobs, case_timeout=120)
+    jobs2, plan2 = [], []
+    for (kind, name, arm), b in zip(plan, bases):
+        sc = ctrl_held_script(kind, arm, 0, 'terminate')
+        rep = [st for op, st in zip(sc, b.get('steps', [])) if op.get('tag') == 'report']
+        sites = (rep[0].get('ret') or {}).get('sites', []) if rep else []
+        if not sites:
+            ctx.selftest_fail('no point recorded in the %s of %s' % (name, kind))
+            continue
+        ctx.sample({'part': 'control thread held', 'kind': kind, 'thread': name, 'points': len(sites)})
+        for k in range(1, len(sites) + 1):
+            for call in (('terminate',) if ctx.quick else ('terminate', 'wait', 'is_alive')):
+                sc = ctrl_held_script(kind, arm, k, call)
+                jobs2.append({'script': sc})
+                plan2.append((kind, name, k, call, sc, sites[k - 1]))
+    res = land.run_cases(jobs2, case_timeout=120)
+    ctx.extra['control_thread_held_runs'] = len(jobs2)
+    for (kind, name, k, call, sc, site), o in zip(plan2, res):
+        ctx.count()
+        ctx.distinct(('ctrl-held', kind, name, k, call))
+        v = judge_ctrl_held(kind, sc, o, call)
+        ctx.outcome('%s:%s-held:%s' % (kind, name, v[0] if v else 'ok'))
+        if v is None or v[0] == 'beyond-end':
+            continue
+        if v[0] == 'harness':
+            ctx.extra.setdefault('harness_anomalies', []).append({'ctrl-held': [kind, name, k], 'why': str(v[1])[:160]})
+            continue
+        ctx.violation('LAND/%s/ending-on-its-own/%s-held@%s/%s/%s' % (kind, name, land.site_sig(site, REPO), call, v[0]),
+                      {'kind': kind, 'thread': name, 'k': k, 'call': call, 'site': site, 'script': sc}, v[1],
+                      'the call returns True without raising, the worker ends with its own outcome', engine='LAND')
+
+
 def own_outcomes(case):
     """The outcomes the target produces on its own: list of (has_error, result, error)."""
     t = case['target']
@@ -55,7 +160,9 @@ def own_outcomes(case):
     if t in ('t_raise', 't_raise_now'):
         return [(True, None, {'exc': 'ValueError', 'args': ['a', 1]})]
     if t == 'p_echo':
-        return [(False, n, None) for n in range(len(case.get('inputs', [])) + 1)]
+        # left alone the worker processes every input and ends when it is closed; a worker which is never closed has no outcome
+        # of its own (a normal return with fewer results is a termination reported as a success)
+        return [(False, len(case.get('inputs', [])), None)] if case.get('close') else []
     if t == 't_spin':
         return []
     return []
@@ -120,6 +227,7 @@ def run(ctx):
         if not b.get('events_total'):
             ctx.selftest_fail('no preemption point recorded in the parent terminate() call')
     runs += pr
+    ctrl_held_part(ctx)
     nbad_harness = 0
     uncovered = {}
     for b, s in zip(bases, scs):
@@ -158,6 +266,16 @@ def run(ctx):
 
 def replay(ctx, rec):
     c = rec['case']
+    if 'script' in c:
+        obs = land.run_cases([{'script': c['script']}], case_timeout=120)[0]
+        ctx.count()
+        v = judge_ctrl_held(c['kind'], c['script'], obs, c['call'])
+        for op, st in zip(c['script'], obs.get('steps', [])):
+            print(op.get('tag', op['op']), str(st)[:160])
+        print('verdict:', v)
+        if v and v[0] not in ('harness', 'beyond-end'):
+            ctx.violation(rec['signature'], c, v[1], rec.get('expected'), engine='LAND')
+        return
     case = {k: c[k] for k in ('kind', 'target', 'phase', 'inputs', 'events') if c.get(k) is not None}
     if case['kind'].startswith('P') and len(case['kind']) == 2:
         case['close'] = c.get('phase') != 'idle-waiting-for-input'
